@@ -53,8 +53,9 @@ PROPS = {
     'C15': dict(suites=[('list', [])], column='kv', relevant=lambda r: r['name'] in LIST_CMDS, title='List commands'),
     'C16': dict(suites=[('set', [])], column='kv', relevant=lambda r: r['name'] in SET_CMDS, title='Set commands'),
     'C02': dict(suites=[('aof', [])], column='dur', clscol='dcls', relevant=lambda r: 'C02' in r['f'].get('own', ''), title='Append-only log durability'),
-    'C03': dict(suites=[('snap', [])], column='dur', clscol='dcls', relevant=lambda r: 'C03' in r['f'].get('own', ''), title='Snapshot round trip'),
+    'C03': dict(suites=[('snap', []), ('sched', [])], column='dur', clscol='dcls', relevant=lambda r: 'C03' in r['f'].get('own', ''), title='Snapshot round trip'),
     'C10': dict(suites=[('snap', [])], column='dur', clscol='dcls', relevant=lambda r: 'C10' in r['f'].get('own', ''), title='Snapshots are crash-atomic'),
+    'C05': dict(suites=[('sched', [])], column='atom', clscol='acls', relevant=lambda r: 'atom' in r['f'], title='Commands are atomic'),
     'C09': dict(suites=[('aof', [])], column='dur', clscol='dcls', relevant=lambda r: 'C09' in r['f'].get('own', ''), title='Log rewrite transparent and crash-atomic'),
     'C19': dict(suites=ALL_DATA, column='mem', clscol='mcls', relevant=lambda r: True, title='Memory figure is a function of the dataset'),
     'C20': dict(suites=ALL_DATA, column='iso', relevant=lambda r: True, title='Logical databases are isolated'),
@@ -262,6 +263,16 @@ def run_suite(cx, work, suite, args, seed, tier, replay=None):
                 name = 'authorize'
             rows.append(dict(seq=seq, now=0, db=0, cmd=cmd, kind=kind, payload=payload, pre='', post='', name=name,
                              model=m[0], detail=m[1], f=m[2], suite=suite, line=l[0]))
+        elif l.startswith('I '):
+            w = l.split(' ')
+            seq = w[1]
+            m = verd.get(seq, ('?', 'no verdict', {}))
+            ia, ib, ik = w.index('CA'), w.index('CB'), w.index('K')
+            ca = [unx(x) for x in w[ia + 2:ib]]
+            cb = [unx(x) for x in w[ib + 2:ik]]
+            rows.append(dict(seq=seq, now=0, db=0, cmd=ca + [b'||'] + cb + [b'@' + w[ik + 1].encode()], kind='schedule', payload=b'', pre='', post='x',
+                             name=(ca[0].decode('latin1').lower() if ca else '') + '||' + (cb[0].decode('latin1').lower() if cb else ''),
+                             model=m[0], detail=m[1], f=m[2], suite=suite, line='X'))
         elif l.startswith('X '):
             w = l.split(' ', 12)
             seq = w[1]
@@ -289,6 +300,8 @@ def seq_prefix(seqmap, seqid):
     if seqid in seqmap and ('z' in seqmap[seqid] or 'writes' in seqmap[seqid]):
         return seqmap[seqid]                      # a single authorization decision / one wire session
     parts = seqid.split('.')
+    if parts[0] in seqmap and 'base' in seqmap[parts[0]]:
+        return seqmap[parts[0]]                   # an interleaving experiment: all schedules of the pair are re-run
     if parts[0] in seqmap and 'mode' in seqmap[parts[0]]:
         # persistence history: <sid>.<op>.<image…>; keep every option of the history, cut the ops
         s = seqmap[parts[0]]
